@@ -204,7 +204,9 @@ def _accident_quarter_to_policy_year_slice(
                         period_start=policy_period[0],
                         period_end=policy_period[1],
                         evaluation_date=evaluation_date,
-                        values=vals_dict,
+                        # a plain dict: a defaultdict would insert a key on every lookup of
+                        # a missing field, silently changing the cell
+                        values=dict(vals_dict),
                         metadata=cell.metadata,
                     )
                 )
